@@ -948,7 +948,12 @@ def run_case(ctx, index):
         permanent = [(snap.snap(sib), sib, 0)]
         ctx.count('tables_built_from_one_matrix_object')
     else:
-        t = gen.apply_layout(ctx.biom, spec, r.choice(gen.LAYOUTS), r)
+        lay = r.choice(gen.LAYOUTS)
+        if any(i.isdigit() for i in spec.obs_ids + spec.samp_ids) and \
+                r.random() < .3:
+            lay = 'ids-partly-numbers'
+            ctx.count('start_tables_with_ids_partly_given_as_numbers')
+        t = gen.apply_layout(ctx.biom, spec, lay, r)
     m = spec.copy()
     ever = {'observation': set(spec.obs_ids), 'sample': set(spec.samp_ids)}
     hist = {'start': spec.describe(), 'ops': []}
